@@ -680,3 +680,8 @@ _np = list(NOT_PROVED)
 _np[1] = None
 _np[2] = None
 NOT_PROVED = [x for x in _np if x is not None]
+
+# --- deep theorems (C07Quad)
+PROOF_MODULES = PROOF_MODULES + ['Compute.Props.C07Quad']
+REQUIRED_THEOREMS = REQUIRED_THEOREMS + ['Cv.C07Q.quad5_poly_error', 'Cv.C07Q.quad5_poly_error_coeffs', 'Cv.C07Q.quad5_poly_exact_of_odd', 'Cv.C07Q.quad5_horner_error', 'Cv.C07Q.Q_monomial_residual']
+NOT_PROVED = [x for x in NOT_PROVED if not any(k in str(x) for k in ('quad5 exactness lifted',))]
